@@ -8,6 +8,10 @@ of the cells of `k`.
 -/
 import RpylibModel.Model.Samplers
 import RpylibModel.Proofs.Lemmas.C02Inversion
+import RpylibModel.Proofs.Lemmas.C02Alias
+import RpylibModel.Proofs.Lemmas.C02Bst
+import RpylibModel.Proofs.Lemmas.C02Huffman
+import RpylibModel.Proofs.Lemmas.C02Adapted
 
 set_option linter.dupNamespace false
 
@@ -183,3 +187,229 @@ example : (List.range 4).map (lawOfTables (build 4 (fun i => [1/8, 1/2, 1/4, 1/8
   decide +kernel
 
 end Rpylib.Alias
+
+/-! ## Binary search tree on an implicit heap: draw on arbitrary threshold tables -/
+namespace Rpylib.Bst
+open Rpylib.Alias (lengthOf)
+
+/-- **draw spec** for an *arbitrary* threshold table: for `u ∈ [0,1)` the descent returns `k` exactly when `u` lies in
+    one of the explicit cells of `k` (cells are non-empty, pairwise disjoint by this equivalence, and inside `[0,1)`) -/
+theorem draw_spec (K : Nat) (bst : Nat → Rat) (u : Rat) (h0 : 0 ≤ u) (h1 : u < 1) (k : Nat) :
+    draw K bst u = k ↔ ∃ c ∈ cells K bst, c.1 = k ∧ c.2.1 ≤ u ∧ u < c.2.2 := by
+  have hf : K < 1 * 2 ^ (K + 1) := by
+    have : K + 1 < 2 ^ (K + 1) := Nat.lt_two_pow_self
+    omega
+  obtain ⟨⟨c, hc, e1, e2, e3⟩, hb⟩ := descend_cells K bst u (K + 1) 1 0 1 hf h0 h1
+  constructor
+  · intro h; exact ⟨c, hc, by rw [e1]; exact h, e2, e3⟩
+  · rintro ⟨c', hc', rfl, hl, hr⟩; exact (hb c' hc' hl hr).symm
+
+/-- every cell is a non-empty sub-interval of `[0,1)` -/
+theorem cells_wellformed (K : Nat) (bst : Nat → Rat) : ∀ c ∈ cells K bst, 0 ≤ c.2.1 ∧ c.2.2 ≤ 1 ∧ c.2.1 < c.2.2 :=
+  cellsFrom_bounds K bst (K + 1) 1 0 1
+
+/-- **zero never**: a state whose cells have total length 0 (i.e. no cell at all) is never returned -/
+theorem zero_never (K : Nat) (bst : Nat → Rat) (k : Nat) (hz : lengthOf (cells K bst) k = 0) (u : Rat) (h0 : 0 ≤ u)
+    (h1 : u < 1) : draw K bst u ≠ k := by
+  intro h
+  exact Rpylib.Alias.no_cell_of_length_zero (cells K bst) k (fun c hc => (cells_wellformed K bst c hc).2.2.le) hz u
+    ((draw_spec K bst u h0 h1 k).mp h)
+
+/-
+Full statement NOT proved (see NOT_PROVED): for p ≥ 0 with Σ p = 1,
+  `lengthOf (cells K (build K p)) k = p k` for every state k ≤ K
+(the in-order walk gives node `ptr` the sum of the leaves before it).  The check applies the proved `draw_spec` to the
+array the implementation built and compares the lengths with p; the model's `build` is compared with the
+implementation's array exactly on the dyadic stream.
+-/
+/-- partial: the construction realises p on a concrete 4-state vector (K = 3, tree not perfect) -/
+theorem build_law_partial :
+    (List.range 4).map (lengthOf (cells 3 (build 3 (fun i => [1/8, 1/2, 1/4, 1/8].getD i 0)))) = [1/8, 1/2, 1/4, 1/8] := by
+  decide +kernel
+
+end Rpylib.Bst
+
+/-! ## Huffman tree: draw spec, law, construction with an arbitrary insertion position -/
+namespace Rpylib.Huffman
+open Rpylib.Alias (lengthOf)
+
+/-- **draw spec**: on a consistent tree, for `u ∈ [0, value)`, subtract-and-descend returns `k` exactly when `u` lies
+    in one of the cells of `k` -/
+theorem draw_spec (t : Tree) (hw : Wf t) (u : Rat) (h0 : 0 ≤ u) (h1 : u < t.value) (k : Nat) :
+    draw t u = k ↔ ∃ c ∈ cells t, c.1 = k ∧ c.2.1 ≤ u ∧ u < c.2.2 := by
+  obtain ⟨⟨c, hc, e1, e2, e3⟩, hb⟩ := draw_cells u t 0 hw h0 (by linarith)
+  simp only [sub_zero] at e1 hb
+  constructor
+  · intro h; exact ⟨c, hc, by rw [e1]; exact h, e2, e3⟩
+  · rintro ⟨c', hc', rfl, hl, hr⟩; exact (hb c' hc' hl hr).symm
+
+/-- **law**: the cells of `k` have total length = the probability carried by the leaves of state `k` -/
+theorem law_of_cells (t : Tree) (k : Nat) : lengthOf (cells t) k = law t k := lengthOf_cellsFrom t 0 k
+
+theorem sum_indicator (f : Nat → Rat) (k : Nat) : ∀ n, ((List.range n).map (fun i => if i = k then f i else 0)).sum =
+    if k < n then f k else 0 := by
+  intro n
+  induction n with
+  | zero => simp
+  | succ n ih =>
+    rw [List.range_succ, List.map_append, List.sum_append, ih]
+    by_cases h1 : k < n
+    · have : n ≠ k := by omega
+      simp [h1, this, Nat.lt_succ_of_lt h1]
+    · by_cases h2 : n = k
+      · subst h2; simp
+      · have : ¬ k < n + 1 := by omega
+        simp [h1, h2, this]
+
+/-- **construction**: `create_huffman_tree(p)` (p ≥ 0, non-empty) returns a consistent tree whose law is `p`; the proof
+    uses nothing about *where* `Heap.insert` puts the merged node (`lawForest_insertAt` holds for every index), so the
+    out-of-step `_values` list of the code only affects the cost -/
+theorem build_law (p : List Rat) (hp : ∀ i, 0 ≤ p.getD i 0) (hn : p ≠ []) :
+    ∃ t, build p = some t ∧ Wf t ∧ (∀ k, law t k = p.getD k 0) ∧
+      t.value = ((List.range p.length).map (fun i => p.getD i 0)).sum := by
+  have hlen : 0 < p.length := List.length_pos_iff.mpr hn
+  have hleavesWf : ∀ t ∈ leavesOf p, Wf t := by
+    intro t ht
+    obtain ⟨i, _, rfl⟩ := List.mem_map.mp ht
+    exact hp i
+  have hl0 : (leavesOf p).length = p.length := by simp [leavesOf]
+  have h0 : (mkHeap (leavesOf p)).nodes.length = (p.length - 1) + 1 := by
+    simp only [mkHeap]; rw [(sortDesc_spec 0 (leavesOf p)).2.2.1, hl0]; omega
+  have hw0 : ∀ t ∈ (mkHeap (leavesOf p)).nodes, Wf t := by
+    intro t ht; simp only [mkHeap] at ht
+    exact hleavesWf t (((sortDesc_spec 0 (leavesOf p)).2.2.2 t).mp ht)
+  obtain ⟨a, b, _, d⟩ := merges_spec 0 (p.length - 1) _ h0 hw0
+  obtain ⟨t, ht⟩ : ∃ t, (merges (p.length - 1) (mkHeap (leavesOf p))).nodes = [t] := List.length_eq_one_iff.mp a
+  refine ⟨t, by simp [build, ht], b t (by simp [ht]), ?_, ?_⟩
+  · intro k
+    obtain ⟨_, _, c, _⟩ := merges_spec k (p.length - 1) _ h0 hw0
+    rw [ht, lawForest_single] at c
+    rw [c]; simp only [mkHeap]; rw [(sortDesc_spec k (leavesOf p)).1]
+    simp only [lawForest, leavesOf, List.map_map, Function.comp_def, law]
+    rw [sum_indicator (fun i => p.getD i 0) k p.length]
+    split_ifs with h
+    · rfl
+    · simp [List.getD, List.getElem?_eq_none (Nat.le_of_not_lt h)]
+  · rw [ht, valueForest_single] at d
+    rw [d]; simp only [mkHeap]; rw [(sortDesc_spec 0 (leavesOf p)).2.1]
+    simp [valueForest, leavesOf, Function.comp_def, Tree.value]
+
+/-- **build realises p**: for every probability vector `p ≥ 0` the tree built by the code sends, for `u` below the total
+    mass, exactly the cells of `k` to `k`, and their total length is `p_k`; in particular (**zero never**) a state with
+    `p_k = 0` is never returned -/
+theorem build_realises (p : List Rat) (hp : ∀ i, 0 ≤ p.getD i 0) (hn : p ≠ []) :
+    ∃ t, build p = some t ∧ (∀ k, lengthOf (cells t) k = p.getD k 0) ∧
+      ∀ u, 0 ≤ u → u < t.value → ∀ k, (draw t u = k ↔ ∃ c ∈ cells t, c.1 = k ∧ c.2.1 ≤ u ∧ u < c.2.2) ∧
+        (p.getD k 0 = 0 → draw t u ≠ k) := by
+  obtain ⟨t, hb, hw, hl, _⟩ := build_law p hp hn
+  refine ⟨t, hb, fun k => by rw [law_of_cells, hl], ?_⟩
+  intro u h0 h1 k
+  refine ⟨draw_spec t hw u h0 h1 k, ?_⟩
+  intro hz hd
+  exact Rpylib.Alias.no_cell_of_length_zero (cells t) k
+    (fun c hc => (cellsFrom_bounds t 0 hw c hc).2.2) (by rw [law_of_cells, hl, hz]) u ((draw_spec t hw u h0 h1 k).mp hd)
+
+/-- non-vacuity: the code's merge order on p = (1/8, 1/2, 1/4, 1/8) -/
+example : (build [1/8, 1/2, 1/4, 1/8]).map shape = some [-1, -1, 2, -1, 3, 0, 1] := by decide +kernel
+
+end Rpylib.Huffman
+
+/-! ## Table method (256 slots + residual alias): law of the idealised sampler -/
+namespace Rpylib.Table
+
+/-
+Full statement NOT proved: `∀ p ≥ 0, Σ p = 1, build n p = some t → ∀ k < n, lawOfTables t k = p k`.
+Proved part: the algebra of slots + residual, *given* (a) the slot counts of `slotsOf` (`k_i` copies of `i`,
+`256 − Σ k_i = Σ θ_i` copies of −1 when Σ p = 1; compared exactly with the implementation's table) and (b) that the
+residual alias tables realise `θ / Σθ` (alias construction: certificate `Alias.law_of_cells`).
+-/
+/-- partial: slots + residual realise `p_k` -/
+theorem law_partial (t : Tables) (n : Nat) (p : Nat → Rat) (k : Nat)
+    (hk : (slotCount t (k : Int) : Rat) = ((((256 : Rat) * p k).floor.toNat : Nat) : Rat))
+    (hres : (slotCount t (-1) : Rat) = thetaSum n p) (hS : 0 < thetaSum n p)
+    (hr : Alias.lawOfTables t.resid k = theta p k / thetaSum n p) : lawOfTables t k = p k := by
+  unfold lawOfTables
+  rw [hk, hres, hr, mul_div_cancel₀ _ (ne_of_gt hS)]
+  unfold theta; ring
+
+/-- the low byte of the 32-bit integer shifts the residual uniform by less than 2^-24 -/
+theorem low_byte_shift (i : Nat) : (i : Rat) / 4294967296 - ((i / 256 * 256 : Nat) : Rat) / 4294967296 < 1 / 16777216 := by
+  have h : i - i / 256 * 256 < 256 := by omega
+  have h2 : i / 256 * 256 ≤ i := Nat.div_mul_le_self i 256
+  have : ((i : Rat) - ((i / 256 * 256 : Nat) : Rat)) < 256 := by
+    have : ((i - i / 256 * 256 : Nat) : Rat) < 256 := by exact_mod_cast h
+    rw [Nat.cast_sub h2] at this; exact this
+  rw [← sub_div, div_lt_iff₀ (by norm_num)]; linarith
+
+/-- non-vacuity: `create_table` on p = (1/3, 2/3): 85 + 170 slots, one residual slot, residual law (1/3, 2/3) -/
+example : (build 2 (fun i => [1/3, 2/3].getD i 0)).map (fun t => (List.range 2).map (lawOfTables t)) = some [1/3, 2/3] := by
+  decide +kernel
+
+end Rpylib.Table
+
+/-! ## One-dimensional adapted bisection (cell masses `w`, `P l r = Σ w`) -/
+namespace Rpylib.Adapted
+
+/-- **draw spec**, left side (`u ≤ pLeft`): the index returned is the first `k ≤ o-1` with `u ≤ Σ_{i≤k} w i`
+    (`o-1` if there is none): state `k` receives the interval `(Σ_{i<k} w, Σ_{i≤k} w]` of length `w k` -/
+theorem draw_spec_left (w : Nat → Rat) (n o : Nat) (pLeft u : Rat) (ho : 0 < o) (hon : o ≤ n) (hu : u ≤ pLeft) :
+    draw w n o pLeft u ≤ o - 1 ∧ (0 < draw w n o pLeft u → pre w (draw w n o pLeft u) < u) ∧
+      (draw w n o pLeft u < o - 1 → u ≤ pre w (draw w n o pLeft u + 1)) := by
+  unfold draw
+  rw [if_neg (not_lt.mpr hu)]
+  obtain ⟨_, b, c, d⟩ := bisect_spec w n 0 (o - 1) u (Nat.zero_le _) (by omega)
+  simp only [pre, add_zero] at c d
+  exact ⟨b, c, d⟩
+
+/-- **draw spec**, right side (`u > pLeft`): the first `k ∈ [o+1, n-1]` with `u − pLeft ≤ Σ_{o+1≤i≤k} w i` -/
+theorem draw_spec_right (w : Nat → Rat) (n o : Nat) (pLeft u : Rat) (hon : o + 1 ≤ n - 1) (hu : pLeft < u) :
+    o + 1 ≤ draw w n o pLeft u ∧ draw w n o pLeft u ≤ n - 1 ∧
+      (o + 1 < draw w n o pLeft u → pLeft + (pre w (draw w n o pLeft u) - pre w (o + 1)) < u) ∧
+      (draw w n o pLeft u < n - 1 → u ≤ pLeft + (pre w (draw w n o pLeft u + 1) - pre w (o + 1))) := by
+  unfold draw
+  rw [if_pos hu]
+  obtain ⟨a, b, c, d⟩ := bisect_spec w n (o + 1) (n - 1) (u - pLeft) hon (by omega)
+  exact ⟨a, b, fun h => by have := c h; linarith, fun h => by have := d h; linarith⟩
+
+/-- the interval of state `k` has length `w k` -/
+theorem cell_length (w : Nat → Rat) (k : Nat) : pre w (k + 1) - pre w k = w k := by simp [pre]
+
+/-- the origin is never returned, whatever the tables -/
+theorem origin_never (w : Nat → Rat) (n o : Nat) (pLeft u : Rat) (ho : 0 < o) (hon : o + 1 ≤ n - 1) :
+    draw w n o pLeft u ≠ o := by
+  by_cases hu : pLeft < u
+  · have := (draw_spec_right w n o pLeft u hon hu).1; omega
+  · have := (draw_spec_left w n o pLeft u ho (by omega) (not_lt.mp hu)).1; omega
+
+/-- **zero never** (interior states; `0 < u`): a state with `w k = 0` that is not the outermost index of its side is
+    never returned; for the outermost indices it follows when `pLeft = Σ_{i<o} w` and the total mass is 1 -/
+theorem zero_never_left (w : Nat → Rat) (n o : Nat) (pLeft u : Rat) (ho : 0 < o) (hon : o ≤ n) (hu : u ≤ pLeft) (h0 : 0 < u)
+    (k : Nat) (hk : k < o - 1) (hz : w k = 0) : draw w n o pLeft u ≠ k := by
+  intro h
+  obtain ⟨_, b, c⟩ := draw_spec_left w n o pLeft u ho hon hu
+  rw [h] at b c
+  have hc := c hk
+  simp only [pre] at hc; rw [hz] at hc
+  rcases Nat.eq_zero_or_pos k with rfl | hp
+  · simp only [pre] at hc; linarith
+  · have := b hp; linarith
+
+theorem zero_never_right (w : Nat → Rat) (n o : Nat) (pLeft u : Rat) (hon : o + 1 ≤ n - 1) (hu : pLeft < u)
+    (k : Nat) (hk : k < n - 1) (hz : w k = 0) : draw w n o pLeft u ≠ k := by
+  intro h
+  obtain ⟨a, _, c, d⟩ := draw_spec_right w n o pLeft u hon hu
+  rw [h] at a c d
+  have hd := d hk
+  have e : pre w (k + 1) = pre w k + w k := rfl
+  rw [e, hz] at hd
+  rcases Nat.lt_or_ge (o + 1) k with hp | hp
+  · have := c hp; linarith
+  · have : k = o + 1 := by omega
+    subst this; linarith
+
+/-- negation witness for known finding #25 is behavioural (the model takes the arithmetic-cell masses `w` as input; on a
+    probability-step grid these differ from the chain's rates): see known_findings.d/C02.json.  Non-vacuity: -/
+example : (List.map (draw (fun i => [1/8, 1/8, 0, 1/4, 1/2].getD i 0) 5 2 (1/4)) [1/16, 1/8, 3/16, 3/8, 1/2, 5/8, 1])
+    = [0, 0, 1, 3, 3, 4, 4] := by decide +kernel
+
+end Rpylib.Adapted
